@@ -33,17 +33,6 @@ def sliceIndices (n : Nat) (start stop step : Option Int) : Except PyErr (List N
 
 abbrev SliceDict := List (String × Sel)
 
-/-- `[f x for x in l]` where `f` may raise: the first error wins, otherwise all results in order -/
-def mapME {β γ : Type} (f : β → Except PyErr γ) : List β → Except PyErr (List γ)
-  | [] => .ok []
-  | x :: xs =>
-    match f x with
-    | .error e => .error e
-    | .ok y =>
-      match mapME f xs with
-      | .error e => .error e
-      | .ok ys => .ok (y :: ys)
-
 /-- `__validate_slice_dict`: unknown label → KeyError, unsupported value type → TypeError -/
 def validate (labels : List String) : SliceDict → Except PyErr Unit
   | [] => .ok ()
